@@ -6,7 +6,7 @@ from vc.reflect import reflect_bool_method
 from vc.speclemmas import STREAM, PUBL, MAPL
 from contracts.pattern_family import c12_contracts
 from contracts.interp_sim import SIFILE
-from contracts.publish import (PFILE, IFILE, OFILE, phase_unit, full_unit, pattern_unit, forward_unit, symbol_table_unit, symbol_refusal_unit, table_kept_unit, publish_bounded)
+from contracts.publish import (PFILE, IFILE, OFILE, phase_unit, full_unit, pattern_unit, forward_unit, symbol_table_unit, symbol_refusal_unit, table_kept_unit, publish_bounded, import_unit)
 from .c04 import py_lib, STFILE, _bounded as c04_bounded
 from contracts.interp_sim import sim_unit
 
@@ -21,6 +21,8 @@ def units_for(repo, cs, pid):
         for move in (True, False):
             us.append(Unit(f'{pid}/py/ProofExp.execute_{which}_phase[move={move}]', phase_unit(repo, cs, which, move), info={'split_depth': 1}))
     us.append(Unit(f'{pid}/py/ProofExp.execute_full', full_unit(repo, cs)))
+    for own in (True, False):
+        us.append(Unit(f'{pid}/py/ProofExp.import_module[imported module has axioms of its own={own}]', import_unit(repo, cs, own)))
     for c in PAT_ARMS:
         us.append(Unit(f'{pid}/py/Interpreter.pattern/{c}', pattern_unit(repo, cs, c, False), info={'split_depth': 1}))
     us.append(Unit(f'{pid}/py/MemoizingInterpreter.pattern', pattern_unit(repo, cs, 'Implies', True), info={'split_depth': 1}))
@@ -78,7 +80,7 @@ def build(repo, tier):
                         'published machine terms: composition with C04 (every serialiser call simulates the machine; publish_* emit Publish of the top of stack) - not re-proved here',
                         'Interpreter.pattern on an Instantiate (notation) node and the proofs phase are NOT covered deductively (bounded stand-in / C02)',
                         'a set of patterns handed to the memoiser is an arbitrary set (membership unconstrained)'],
-                    functions=[(PFILE, 'ProofExp.execute_gamma_phase'), (PFILE, 'ProofExp.execute_claims_phase'), (PFILE, 'ProofExp.execute_full'), (IFILE, 'Interpreter.pattern'),
+                    functions=[(PFILE, 'ProofExp.execute_gamma_phase'), (PFILE, 'ProofExp.execute_claims_phase'), (PFILE, 'ProofExp.execute_full'), (PFILE, 'ProofExp.import_module'), (IFILE, 'Interpreter.pattern'),
                                (OFILE, 'MemoizingInterpreter.pattern'), ('generation/src/proof_generation/interpreter_transformer.py', 'InterpreterTransformer.publish_axiom'),
                                ('generation/src/proof_generation/interpreter_transformer.py', 'InterpreterTransformer.publish_claim'),
                                ('generation/src/proof_generation/interpreter_transformer.py', 'InterpreterTransformer.publish_proof'),
